@@ -552,12 +552,11 @@ def t_generate_events():
         st = st.copy()
         ev = V(("ref", "EventABC"), st.new_ref("event"))
         st.assume(is_instance("EventABC", ev.term))
-        created.append((ev, dict(kw)))
+        st.ghost["created"] = st.ghost.get("created", ()) + ((ev, dict(kw)),)
         return [(st, ev)]
-    pending = []
 
     def pend(ex, st, recv, n, v):
-        pending.append(v)
+        st.ghost["pending"] = st.ghost.get("pending", ()) + (v,)
     env = {"self": runner, "session": session, "event_setting": setting, "event_name": V(("str",), z3.Const("event_name", z3.StringSort())),
            "i_event": V(("int",), z3.Const("i_event", z3.IntSort())), "event_class": V(("class",), None, py=None)}
     specs = {("ctor", "*"): ctor, ("hook", "tuple-append", QG): pend}
@@ -567,6 +566,7 @@ def t_generate_events():
         if kind == "raise":
             s1.oblige(f"no-raise:{val[0]}@{val[1]}", z3.BoolVal(False), "no-raise"); continue
         n += 1
+        created = s1.ghost.get("created", ()); pending = s1.ghost.get("pending", ())
         if len(created) != 1 or len(pending) != 2:
             s1.oblige(f"trace:one event object and two deferred steps per configured event (got {len(created)} objects, {len(pending)} steps)", z3.BoolVal(False), "trace"); continue
         ev, kw = created[0]
@@ -621,4 +621,116 @@ def t_generate_events():
     obl.append({"name": QG + "[event]/cover:paths", "pc": [], "goal": z3.BoolVal(n >= 1), "kind": "cover"})
     info = {"function": QG + " (per configured event: creation and the two deferred steps)", "source_sha": get_src().source_hash(QG), "where": get_src().where(QG), "paths": n,
             "assumptions": sorted(ex.used_assumptions | {"the event class is resolved by find_class (bounded stand-in) and constructed with keyword arguments"})}
+    return {"obligations": obl, "info": [info]}
+
+
+# ----------------------------------------------------------------------------- _generate_markets: fundamental parameters of a group and creation of each market (C12 initial value, C18, C10 logger)
+QM = "SequentialRunner._generate_markets"
+
+
+def _markets_loop_body():
+    fn = get_src().funcs[QM][0]
+    outer = [n for n in fn.body if isinstance(n, ast.For)]
+    if len(outer) != 1:
+        raise Unsupported(f"anchor-lost: `for name in ...` of {QM}")
+    return outer[0].body
+
+
+@task(QM + "[fundamental-parameters]", props=["C12", "C18"], functions=[QM], replay="config")
+def t_market_fund_params():
+    """the fundamental path of a group starts at `fundamentalPrice` if configured, else at `marketPrice`; drift and volatility are the configured ones, else 0"""
+    body = _markets_loop_body()
+    start = [i for i, s_ in enumerate(body) if isinstance(s_, ast.If) and ast.unparse(s_.test) == "'fundamentalPrice' in market_settings"]
+    end = [i for i, s_ in enumerate(body) if isinstance(s_, ast.For)]
+    if not start or not end or end[0] <= start[0]:
+        raise Unsupported(f"anchor-lost: fundamental parameter block of {QM}")
+    stmts = body[start[0]:end[0]]
+    from .session import get as sget, has as shas
+    settings = V(("dict", ("str",), ("dyn",)), z3.Const("market_settings", REF))
+    env = {"self": sym_obj("SequentialRunner", "runner"), "market_settings": settings, "name": V(("str",), z3.Const("group_name", z3.StringSort()))}
+    num = lambda v: z3.Or(dyn_is_int(v), dyn_is_real(v))
+    keys = ("fundamentalPrice", "marketPrice", "fundamentalDrift", "fundamentalVolatility")
+
+    def assume(st):
+        return [z3.Implies(shas(st, settings, k), num(sget(st, settings, k))) for k in keys]
+    ex, st0, outs, obl = run_block(QM, stmts, env, assume=assume, label=QM + "[fundamental-parameters]")
+    h = lambda k: shas(st0, settings, k)
+    val = lambda k: coerce(V(("dyn",), sget(st0, settings, k)), ("real",))
+    n = 0
+    for s1, kind, v in outs:
+        if kind == "raise":
+            s1.oblige("raises:ValueError only when neither fundamentalPrice nor marketPrice is configured", z3.And(z3.BoolVal(v[0] == "ValueError"), z3.Not(h("fundamentalPrice")), z3.Not(h("marketPrice"))), "raises")
+            continue
+        n += 1
+        e = s1.env
+        s1.oblige("raises:ValueError whenever neither price is configured", z3.Or(h("fundamentalPrice"), h("marketPrice")), "raises")
+        s1.oblige("post:C12 the fundamental path starts at the configured fundamentalPrice, and at marketPrice only when no fundamentalPrice is given",
+                  to_real(e["fundamental_price"]) == z3.If(h("fundamentalPrice"), val("fundamentalPrice"), val("marketPrice")), "post")
+        s1.oblige("post:C12 drift and volatility are the configured ones, else 0",
+                  z3.And(to_real(e["fundamental_drift"]) == z3.If(h("fundamentalDrift"), val("fundamentalDrift"), 0), to_real(e["fundamental_volatility"]) == z3.If(h("fundamentalVolatility"), val("fundamentalVolatility"), 0)), "post")
+    obl.append({"name": QM + "[fundamental-parameters]/cover:paths", "pc": [], "goal": z3.BoolVal(n >= 2), "kind": "cover"})
+    info = {"function": QM + " (fundamental parameters of a group)", "source_sha": get_src().source_hash(QM), "where": get_src().where(QM), "paths": n, "assumptions": sorted(ex.used_assumptions)}
+    return {"obligations": obl, "info": [info]}
+
+
+@task(QM + "[create]", props=["C12", "C18", "C10"], functions=[QM], replay="config")
+def t_market_create():
+    """each market of a group: created with the running id, the runner's logger and its name, registered under the group name; non-index markets get a fundamental path with the
+    group's parameters under the market's own id; the market's setup is deferred with the group's settings"""
+    body = _markets_loop_body()
+    loops = [s_ for s_ in body if isinstance(s_, ast.For)]
+    if len(loops) != 1 or ast.unparse(loops[0].iter) != "range(id_from, id_to + 1)":
+        raise Unsupported(f"anchor-lost: creation loop of {QM}")
+    stmts = loops[0].body
+    runner = sym_obj("SequentialRunner", "runner")
+    settings = V(("dict", ("str",), ("dyn",)), z3.Const("market_settings", REF))
+    created = []; pending = []
+
+    def ctor(ex, st, clsv, pos, kw, node):
+        st = st.copy()
+        m = V(("ref", "Market"), st.new_ref("market"))
+        st.assume(is_instance("Market", m.term))
+        for f in ("market_id", "name", "logger", "simulator"):
+            if f in kw:
+                st.write(m, f, kw[f])
+        st.ghost["created"] = st.ghost.get("created", ()) + ((m, dict(kw)),)
+        return [(st, m)]
+
+    def pend(ex, st, recv, n, v):
+        st.ghost["pending"] = st.ghost.get("pending", ()) + (v,)
+    fp, fd, fv = (V(("real",), z3.Real(nm)) for nm in ("fundamental_price", "fundamental_drift", "fundamental_volatility"))
+    env = {"self": runner, "market_settings": settings, "name": V(("str",), z3.Const("group_name", z3.StringSort())), "prefix": V(("str",), z3.Const("prefix", z3.StringSort())),
+           "i": V(("int",), z3.Int("i_loop")), "i_market": V(("int",), z3.Int("i_market")), "n_markets": V(("int",), z3.Int("n_markets")), "market_class": V(("class",), None, py=None),
+           "fundamental_price": fp, "fundamental_drift": fd, "fundamental_volatility": fv}
+    specs = {("ctor", "*"): ctor, ("hook", "tuple-append", QM): pend, ("m", "Simulator", "_add_market"): emit("AddMarket"), ("m", "Fundamentals", "add_market"): emit("FundAdd", with_recv=False)}
+    ex, st0, outs, obl = run_block(QM, stmts, env, specs=specs, label=QM + "[create]")
+    n = 0
+    for s1, kind, v in outs:
+        if kind == "raise":
+            s1.oblige(f"no-raise:{v[0]}@{v[1]}", z3.BoolVal(False), "no-raise"); continue
+        n += 1
+        created = s1.ghost.get("created", ()); pending = s1.ghost.get("pending", ())
+        if len(created) != 1:
+            s1.oblige(f"trace:one market object per id of the range (got {len(created)})", z3.BoolVal(False), "trace"); continue
+        m, kw = created[0]
+        s1.oblige("post:C18 the market gets the running id, this simulator and the runner's logger (C10: its records reach the logger)",
+                  z3.And(kw["market_id"].term == env["i_market"].term, kw["simulator"].term == s1.read(runner, "simulator").term,
+                         z3.And(kw["logger"].none == st0.read(runner, "logger").none, z3.Implies(z3.Not(kw["logger"].none), kw["logger"].term == st0.read(runner, "logger").term)) if kw["logger"].ty[0] == "opt" else z3.BoolVal(False),
+                         coerce(s1.env["i_market"], ("int",)) == env["i_market"].term + 1), "post")
+        adds = [t for t in s1.trace if t[0] == "AddMarket"]; funds = [t for t in s1.trace if t[0] == "FundAdd"]
+        s1.oblige("trace:C18 the market is registered once, under its group's name", z3.And(adds[0][2][1] == m.term, adds[0][2][2] == env["name"].term) if len(adds) == 1 and len(adds[0][2]) >= 3 else z3.BoolVal(False), "trace")
+        isidx = is_instance("IndexMarket", m.term)
+        if len(funds) > 1:
+            s1.oblige("trace:at most one fundamental path per market", z3.BoolVal(False), "trace"); continue
+        if funds:
+            args = funds[0][2]
+            s1.oblige("trace:C12 a non-index market gets a fundamental path under its own id with the group's initial value, drift and volatility",
+                      z3.And(z3.Not(isidx), args[0] == kw["market_id"].term, args[1] == fp.term, args[2] == fd.term, args[3] == fv.term) if len(args) >= 4 else z3.BoolVal(False), "trace")
+        else:
+            s1.oblige("trace:C12 only an index market gets no fundamental path of its own", isidx, "trace")
+        ok = len(pending) == 1 and pending[0].ty[0] == "tuple" and len(pending[0].py) == 2 and pending[0].py[0].py and pending[0].py[0].py[0] == "bound"
+        s1.oblige("post:C18 the market's own setup is deferred with the group's settings",
+                  z3.And(pending[0].py[0].py[1].term == m.term, z3.BoolVal(pending[0].py[0].py[2] == "setup"), pending[0].py[1].py["settings"].term == settings.term) if ok and pending[0].py[1].ty[0] == "kwdict" and "settings" in pending[0].py[1].py else z3.BoolVal(False), "post")
+    obl.append({"name": QM + "[create]/cover:paths", "pc": [], "goal": z3.BoolVal(n >= 2), "kind": "cover"})
+    info = {"function": QM + " (creation of each market of a group)", "source_sha": get_src().source_hash(QM), "where": get_src().where(QM), "paths": n, "assumptions": sorted(ex.used_assumptions)}
     return {"obligations": obl, "info": [info]}
